@@ -856,7 +856,12 @@ func (m *c09Mon) check(op, res string, cur *c09Snap) {
 			if d := cur.desc(r, cl.Cons[i].H); d != nil {
 				overlap++
 				if why := agree(&cl.Cons[i], d, true); why != "" {
-					m.violate("C09/set_canonical_requires_agreement/existing-consensus-state-disagrees",
+					sig := "C09/set_canonical_requires_agreement/existing-consensus-state-disagrees"
+					if f[0] == "tx" && prev.cons(c, cl.Cons[i].H) == nil {
+						// the consensus state arrived in the same transaction as the designation
+						sig = "C09/later_conflict_rejected/conflicting-items-accepted-in-one-transaction"
+					}
+					m.violate(sig,
 						fmt.Sprintf("c%d designated for r%d although its consensus state at %d (%+v) disagrees (%s) with the descriptor (%+v)", c, r, cl.Cons[i].H, cl.Cons[i], why, *d))
 				}
 			}
@@ -908,6 +913,13 @@ func (m *c09Mon) check(op, res string, cur *c09Snap) {
 				sf := strings.Fields(sub)
 				m.c06(sf, parseKV(sf), "ok", prev, cur)
 				m.perMsg(sf, parseKV(sf), "ok", sub, prev, cur)
+				if sf[0] == "lc_misb" {
+					ci, _ := m.h.clientByTok(sf[1])
+					_, was := prev.C2R[ci]
+					if _, is := cur.C2R[ci]; is && !was && ci < len(cur.Clients) && cur.Clients[ci].Frozen && !prev.Clients[ci].Frozen {
+						m.violate("C09/misbehaviour_rejected/client-designated-and-frozen-in-one-transaction", op)
+					}
+				}
 			}
 		} else {
 			m.c06(f, kv, res, prev, cur)
@@ -1838,6 +1850,14 @@ func c09Directed() [][]string {
 		// the same with the header for a height inside the batch
 		cat(ra0, []string{up(1, 3), honest, "lc_setcanon c0",
 			"tx " + up(4, 2) + " ;; lc_update c0 w=top h=4 root=99 ts=40 nv=1 ps=a0 pd=a0 rev=0 trusted=2 vals=a0:1:1 tvals=a0:1:1", up(6, 1)}),
+		// ONE transaction [MsgSetCanonicalClient, MsgUpdateClient(header for the posted height 3 with another root, signed by the sequencer
+		// a0 with power 10 and naming the unregistered key x1 as proposer)]: the ante handler sees a client that is not canonical and a
+		// proposer that is no sequencer (nothing to check), the designation then succeeds, the header then gets into the canonical client
+		cat(ra0, []string{up(1, 3), "lc_create chain=r0 tl=0 tp=0 ub=0 dr=0 specs=1,2 path=1,2 h=1 root=2 ts=10 nv=1",
+			"tx lc_setcanon c0 ;; lc_update c0 w=top h=3 root=99 ts=30 nv=1 ps=x1 pd=x1 rev=0 trusted=1 vals=a0:10:1,x1:1:0 tvals=a0:1:1"}),
+		// ONE transaction [MsgSetCanonicalClient, MsgSubmitMisbehaviour]: the client is designated and frozen
+		cat(ra0, []string{up(1, 3), honest,
+			"tx lc_setcanon c0 ;; lc_misb c0 k=submit h=4 root=5 ts=40 nv=1 ps=a0 pd=a0 rev=0 trusted=2 vals=a0:1:1 tvals=a0:1:1"}),
 		// mirrored order: the header first — the hook of the state update then finds the consensus state and refuses, the transaction is atomic
 		cat(ra0, []string{up(1, 3), honest, "lc_setcanon c0",
 			"tx lc_update c0 w=top h=5 root=99 ts=50 nv=1 ps=a0 pd=a0 rev=0 trusted=2 vals=a0:1:1 tvals=a0:1:1 ;; " + up(4, 2), up(4, 2)}),
